@@ -393,3 +393,19 @@ Theorem C06_ipa_commit_is_sem_honest :
     i_commit1 d lp rng = Ok (cm, st, n) -> sem_honest d (lp, lp_bound lp, cm, st).
 Proof. exact @commit1_sem_honest. Qed.
 Print Assumptions C06_ipa_commit_is_sem_honest.
+
+(* the trait-default check_combinations (Hyrax, the linear codes) compares EVERY queried (combination, point) claim: when it
+   accepts, each query whose label names a combination found its claimed value, and that value is the combination of the
+   transmitted evaluations at that query's point - also when one combination is queried at several points *)
+From PC Require Import Proofs.DefaultLCSound.
+Theorem C06_default_check_combinations_compares_every_claim :
+  forall (FO : FieldOps) (FL : FieldLaws FO) (Comm Proof St : Type)
+         (check : list Comm -> point -> list F -> Proof -> St -> res (bool * St))
+         lcs cs eqn_qs eqn_ev proofs evs st st',
+    default_check_combinations Comm Proof St check lcs cs eqn_qs eqn_ev proofs (Some evs) st = Ok (true, st') ->
+    forall lab pl pt terms, In (lab, (pl, pt)) eqn_qs -> OrdMap.lookup N.compare lab (lcs_map lcs) = Some terms ->
+      exists claimed actual,
+        lookup_pk (lab, pt) eqn_ev = Some claimed /\
+        lc_rhs (combine (poly_point_keys (lc_qs_to_poly_qs (lcs_map lcs) eqn_qs)) evs) pt terms f0 = Ok actual /\ claimed = actual.
+Proof. exact @default_check_combinations_compares_every_claim. Qed.
+Print Assumptions C06_default_check_combinations_compares_every_claim.
